@@ -25,10 +25,13 @@ LEVEL_TEXT = ('The clauses about the condensed graph (bond/atom specification, d
               'tables regenerated from /repo. Proof is the right level because these functions are small, first-order and '
               'purely structural; canonical numbering (Morgan) and the molecule-level SMILES writer are NOT in this model '
               '(C01/C02) and enter only as named hypotheses / run-time relational checks.')
-LEVEL_NOTE = ('Lean kernel; hand-written model validated by correspondence (not a proof about the Python text); CPython set '
+LEVEL_NOTE = ('Lean kernel; hand-written model validated by correspondence (not a proof about the Python text); the molecule '
+              'parser enters the radical read-back theorems only through its atom count per molecule string (hypothesis checked at '
+              'run time); the reader is observed where postprocess_parsed_reaction is called (module-level name wrapped for one '
+              'call); CPython set '
               'iteration order is a parameter of the model (theorems hold for every order); molecule-level SMILES strings are '
               'taken from the real writer; harness canonicalisers; gen_c15 table translator.')
-TECHNIQUE = 'Lean 4 theorems over an executable model of compose/format/read + differential testing against the real code'
+TECHNIQUE = 'Lean 4 theorems over an executable model of compose/union/format/read/radical block/mapping repair + differential testing against the real code'
 RULE = ('reactions assembled from corpus / handmade molecules: 1-3 molecules per side merged with disjoint numbers, product side '
         'derived by 0-4 ground-truth edits (bond cleaved / formed / order changed, charge changed, radical toggled), components '
         'regrouped into 0-3 molecules per role incl. empty roles and multi-component salts, optional reagents (colliding '
